@@ -294,6 +294,30 @@ def routes_stream(ctx, res):
                     res.violate("C09:plaintext-in-document", "a secret added to a typed container of challenge values shows in a document (or the save fails)",
                                 {"stream": "routes", "alg": alg, "holder": holder, "fmt": fmt, "leaked": leaked})
                     break
+        # (b') plaintexts DECLARED as the default of a list / dict of challenge values, written as a list, a tuple, a dict, pairs or a factory
+        for shape, mk in (("list", lambda: cc.ListField(cc.ChallengeField(alg), default=["tok-one", "tok-two"])), ("tuple", lambda: cc.ListField(cc.ChallengeField(alg), default=("tok-one", "tok-two"))),
+                          ("tuple-factory", lambda: cc.ListField(cc.ChallengeField(alg), default=lambda: ("tok-one", "tok-two"))),
+                          ("dict", lambda: cc.DictField(cc.StringField(), cc.ChallengeField(alg), default={"a": "tok-one", "b": "tok-two"})),
+                          ("pairs", lambda: cc.DictField(cc.StringField(), cc.ChallengeField(alg), default=[("a", "tok-one"), ("b", "tok-two")]))):
+            for where in ("fresh", "after-reset"):
+                d_ = cc.Schema()
+                d_.sub.tokens = mk()
+                case = {"stream": "routes", "what": "declared-default", "alg": alg, "default_written_as": shape, "where": where}
+                res.case(stable(case), kind="routes:default")
+                try:
+                    cfg = d_()
+                    if where == "after-reset":
+                        cfg.sub.tokens = {"z": "other"} if shape in ("dict", "pairs") else ["other"]
+                        cc.reset_value(cfg, "sub.tokens")
+                    held = cfg.sub.tokens
+                    values = list(held.values()) if isinstance(held, dict) else list(held)
+                    okk = len(values) == 2 and verifies(values[0], "tok-one") and verifies(values[1], "tok-two")
+                    leaked = "tok-one" in repr(cfg.to_tree()) or b"tok-one" in cfg.dumps(format="json")
+                except Exception as e:  # noqa
+                    okk, leaked = False, "raised %s" % type(e).__name__
+                if not okk or leaked:
+                    res.violate("C09:route:plaintext-held:declared-default", "plaintexts declared as the default of a typed list / dict of challenge values are held (or written) as they are, "
+                                "not as salted hashes", dict(case, leaked=leaked))
         # (c)
         tmp = ctx.tmpdir()
         for fmt in ("json", "yaml"):
